@@ -372,11 +372,28 @@ func cStr(cs Case, k string) string {
 
 // hx is the hex form stored next to a raw string in a replayable case.
 func hx(s string) string { return hex.EncodeToString([]byte(s)) }
+
+func hxs(a []string) []string {
+	r := make([]string, len(a))
+	for i, s := range a {
+		r[i] = hx(s)
+	}
+	return r
+}
 func cInt(cs Case, k string) int {
 	f, _ := cs[k].(float64)
 	return int(f)
 }
 func cStrs(cs Case, k string) []string {
+	if ha, ok := cs[k+"_hex"].([]interface{}); ok {
+		var r []string
+		for _, x := range ha {
+			h, _ := x.(string)
+			b, _ := hex.DecodeString(h)
+			r = append(r, string(b))
+		}
+		return r
+	}
 	a, _ := cs[k].([]interface{})
 	var r []string
 	for _, x := range a {
